@@ -5,6 +5,8 @@ import (
 	"fmt"
 	"os"
 	"path/filepath"
+	"regexp"
+	"runtime"
 	"strings"
 	"sync"
 	"sync/atomic"
@@ -226,6 +228,63 @@ func (g *c27Gate) hook() {
 	}
 }
 
+// c27Quiesce is a non-blocking stand-in for synctest.Wait() for the moments when
+// the harness itself keeps a reload parked at the gate: it returns once every
+// other goroutine of this bubble is either durably blocked or waiting for a
+// sync.Mutex/RWMutex, and reports whether some goroutine waits for a lock.
+// synctest.Wait() cannot be used there: an implementation may serialise
+// reloads, a trigger then waits for a lock the parked reload holds, and lock
+// waits are never "durably blocked", so Wait() would never return. Progress is
+// judged from goroutine states only (runtime.Stack), never from real time;
+// every goroutine that is neither parked nor lock-blocked is making progress,
+// so the loop ends. capped=true means the (very large) poll cap was reached.
+var c27HeaderRe = regexp.MustCompile(`(?m)^goroutine (\d+) \[([^\]]*)\]:`)
+
+func c27Quiesce() (lockWaiters bool, capped bool) {
+	self := make([]byte, 256)
+	self = self[:runtime.Stack(self, false)]
+	m := c27HeaderRe.FindSubmatch(self)
+	if m == nil {
+		panic("c27: cannot parse own goroutine header: " + string(self))
+	}
+	selfID := string(m[1])
+	bubble := ""
+	if i := strings.Index(string(m[2]), "synctest bubble "); i >= 0 {
+		bubble = string(m[2])[i:]
+	} else {
+		panic("c27Quiesce called outside a bubble")
+	}
+	buf := make([]byte, 1<<20)
+	for poll := 0; poll < 400000; poll++ {
+		n := runtime.Stack(buf, true)
+		for n == len(buf) {
+			buf = make([]byte, 2*len(buf))
+			n = runtime.Stack(buf, true)
+		}
+		busy, locked := false, false
+		for _, h := range c27HeaderRe.FindAllSubmatch(buf[:n], -1) {
+			state := string(h[2])
+			if string(h[1]) == selfID || !strings.HasSuffix(state, bubble) {
+				continue
+			}
+			switch {
+			case strings.HasPrefix(state, "running"), strings.HasPrefix(state, "runnable"), strings.HasPrefix(state, "syscall"):
+				busy = true
+			case strings.Contains(state, "(durable)"):
+			case strings.HasPrefix(state, "sync."), strings.HasPrefix(state, "semacquire"):
+				locked = true
+			default: // IO wait, GC assist, ...: transient
+				busy = true
+			}
+		}
+		if !busy {
+			return locked, false
+		}
+		runtime.Gosched()
+	}
+	return false, true
+}
+
 type c27Listener struct {
 	calls  atomic.Int64
 	mu     sync.Mutex
@@ -253,6 +312,8 @@ type c27Obs struct {
 	HeldSnap       map[string]string
 	Triggers       int
 	ListenersAtEnd int
+	Serialised     bool // while a reload was parked at the gate, another trigger waited for a lock
+	Capped         bool
 }
 
 type c27Run struct {
@@ -469,7 +530,9 @@ func c27Execute(c c27Case) (run c27Run) {
 						publish()
 					}
 				}
-				synctest.Wait() // every trigger has read the files and waits at the gate
+				// every trigger has read the files and waits at the gate - or, if the implementation
+				// serialises reloads, one is parked at the gate and the others wait for its lock
+				o.Serialised, o.Capped = c27Quiesce()
 				gate.open()
 				observe(&o, before)
 				run.Obs = append(run.Obs, o)
@@ -498,7 +561,7 @@ func c27Execute(c c27Case) (run c27Run) {
 			before := counts()
 			gate.arm(2)
 			go doReload()
-			synctest.Wait()
+			c27Quiesce()
 			if gate.heldCount() == 0 {
 				// unreadable files: the first reload failed before its scheduling point; nothing is held
 				gate.open()
@@ -512,8 +575,14 @@ func c27Execute(c c27Case) (run c27Run) {
 				o.FreshSnap = c27SnapAll(fc)
 			}
 			o.Changed = onDisk != applied
-			fire(st.Trig2)
-			synctest.Wait()
+			// the second trigger runs on its own goroutine: with a serialising implementation it cannot
+			// finish before the first is released; then they finish in the order the implementation imposes
+			if st.Trig2 == "pubsub" {
+				publish()
+			} else {
+				go doReload()
+			}
+			o.Serialised, o.Capped = c27Quiesce()
 			gate.open()
 			observe(&o, before)
 			run.Obs = append(run.Obs, o)
@@ -589,6 +658,14 @@ func execC27(c c27Case) vkit.Result {
 		}
 		if o.Kind != "seq" {
 			res.NonTrivial = true
+			if o.Serialised {
+				res.Class(o.Kind + ":triggers-waited-for-a-lock(serialised)")
+			} else {
+				res.Class(o.Kind + ":triggers-interleaved")
+			}
+			if o.Capped {
+				res.Class("quiesce-poll-cap-reached")
+			}
 		}
 		sameAsPrev := len(cxDiffKeys(o.SutSnap, o.PrevSnap)) == 0
 		sameAsFresh := o.FreshSnap != nil && len(cxDiffKeys(o.SutSnap, o.FreshSnap)) == 0
@@ -619,6 +696,16 @@ func execC27(c c27Case) vkit.Result {
 				}
 			case !o.FreshAccepted && !sameAsPrev && !(o.HeldSnapOK && len(cxDiffKeys(o.SutSnap, o.HeldSnap)) == 0):
 				res.Violate("C27/rejected-change-applied/"+c27ErrClass(o.FreshErr), "%s: startup rejects the files (%q) but getters moved: %v", where, o.FreshErr, cxDiffKeys(o.SutSnap, o.PrevSnap))
+			}
+			// notifications: two contents were on disk, so at most two changes were applied, every
+			// listener hears of each of them, and an applied change is never silent
+			switch {
+			case minCalls != maxCalls:
+				res.Violate("C27/overlap/listeners-notified-unequally", "%s: listener call counts %v", where, o.Calls)
+			case maxCalls > 2:
+				res.Violate("C27/overlap/more-notifications-than-contents", "%s: listener call counts %v for two file contents", where, o.Calls)
+			case !sameAsPrev && maxCalls == 0:
+				res.Violate("C27/overlap/applied-without-notification", "%s: getters moved (%v) but no listener was called", where, cxDiffKeys(o.SutSnap, o.PrevSnap))
 			}
 			continue
 		}
@@ -682,16 +769,17 @@ func TestC27(t *testing.T) {
 		Rule: "rapid-generated histories (1-8 steps) over one config file and one rules file; per step the config file becomes {same, rewritten, valid variant, comment-only change, deprecated option with/without deprecation text, invalid, unparsable, missing} " +
 			"and the rules file {same, rewritten, valid variant, invalid, unparsable, missing}, followed by a trigger {the watcher's real ticker (virtual time), a direct Reload as the ticker would do, a cfg_update pubsub message, " +
 			"a storm of 2-8 concurrent triggers (alternating direct Reload / pubsub message, real goroutines held at a barrier after reading the files and released together; 20 iterations with a fresh change each), " +
-			"an overlap (first trigger reads content B and is held, files move on to C, second trigger completes, first released)}; 1-3 listeners plus listeners registered mid-history; startup version 'dev' or '3.2.2'. " +
+			"an overlap (first trigger reads content B and is held, files move on to C, second trigger runs until it completes or waits for a lock, first released)}; 1-3 listeners plus listeners registered mid-history; startup version 'dev' or '3.2.2'. " +
 			"Real fileConfig + real ConfigWatcher + LocalPubSub inside a synctest bubble. After every trigger, judged against a FRESH NewConfig(opts, version) on the files of that moment. " +
 			"Non-trivial: a step whose files startup accepts only with warnings, or a concurrent/overlapping trigger. Distinct = distinct case JSON.",
 		Assumptions: []string{
 			"'startup would accept' = config.NewConfig(opts, version) returns a Config (possibly with a warning error), with the version string main() passes: 'dev' for a build without BuildID, else the release number",
 			"'content changed' = file bytes differ from the bytes of the last applied configuration (a comment-only edit is a change; rewriting identical bytes is not)",
 			"a ReloadedConfigDataOption that never touches the data is used as a scheduling point inside the real Reload (after the files were read, before validation); it is the only instrumentation",
+			"an implementation may serialise reloads: while a reload is parked at the scheduling point the harness never blocks on another reload; it polls goroutine states (parked / waiting for a lock / still working) and releases the parked reload as soon as nobody is working, so the triggers finish in whatever order the implementation imposes",
 			"the watcher's ticker is exercised on synctest virtual time; extra ticks on unchanged files must be no-ops",
 			"storm verdicts are schedule-dependent: a double or lost notification is reported when observed in one of the 20 iterations, silence proves nothing",
-			"overlap steps assert only the end state (running config = files on disk when startup accepts them), not the number of notifications",
+			"overlap steps assert the end state (running config = files on disk when startup accepts them) and only bounds on notifications (equal for all listeners, at most 2, at least 1 if getters moved)",
 		},
 		Gen:  genC27,
 		Exec: execC27,
